@@ -28,6 +28,9 @@
 //! 3. Add `mod foo;` and the arm `"foo" => foo::replay(sc)` in `dispatch` below.
 //! Nothing in run.py needs to change: it compares whatever keys `predicted` contains.
 //!
+//! Actors whose methods are private fns (miner) can only be entered through `invoke_method`; their adapters
+//! accept "entry":"direct" and treat it like "dispatch" (see miner.rs).
+//!
 //! # Function-level adapters (no message, no runtime)
 //!
 //! `market_state` replays single `fil_actor_market::State` methods: it builds the state on a bare
@@ -41,6 +44,7 @@
 
 mod json_util;
 mod market_state;
+mod miner;
 mod multisig;
 mod paych;
 mod runtime;
@@ -54,7 +58,8 @@ fn dispatch(sc: &Value) -> Result<Value> {
         "paych" => paych::replay(sc),
         "multisig" => multisig::replay(sc),
         "market_state" => market_state::replay(sc),
-        other => Err(anyhow!("unknown actor '{}' (adapters: paych, multisig, market_state)", other)),
+        "miner" => miner::replay(sc),
+        other => Err(anyhow!("unknown actor '{}' (adapters: paych, multisig, market_state, miner)", other)),
     }
 }
 
